@@ -12,7 +12,7 @@ use std::collections::BTreeMap;
 pub fn def() -> PropDef {
     PropDef {
         id: "C01",
-        rule: "generated: codec family x engine x (k,r) class (tiny/small/pow2-edge/multi-chunk/medium/envelope corner) x even shard size x data spec x received-set spec (size k | k+1 | uniform | all; 8 loss-pattern families; 5 arrival orders); oracle: decode Ok and restored map == exactly the withheld originals. non-trivial: >=1 original withheld and >=1 recovery shard given; distinct by full case",
+        rule: "generated: codec family x engine x (k,r) class (tiny/small/pow2-edge/multi-chunk/medium/envelope corner) x even shard size x data spec x received-set spec (size k | k+1 | uniform | all; 8 loss-pattern families; 5 arrival orders); part big_roundtrip: 1..5 + 1..5 shards whose decoder working set is log-uniform 8 MiB .. 768 MiB (quick) / 2 GiB (thorough). oracle: decode Ok and restored map == exactly the withheld originals. non-trivial: >=1 original withheld and >=1 recovery shard given; distinct by full case",
         assumptions: &["shard contents and received sets are expanded deterministically from generated specs"],
         parts,
     }
@@ -36,6 +36,7 @@ fn parts() -> Vec<Box<dyn PartDyn>> {
             strat: |t| gen::round_of_kind(Kind::Rs, t.pick(1200, 3000)),
             check: check_oneshot,
         }),
+        Box::new(GenPart { name: "big_roundtrip", quick: 6, thorough: 160, shrink_iters: 12, strat: big_strategy, check: check_big }),
         Box::new(GenPart {
             name: "corners",
             quick: 24,
@@ -201,4 +202,69 @@ pub fn check_corner(c: &CornerCase, st: &mut Stats) -> CheckResult {
     check_round(&rd, st)?;
     st.classf("corner", format!("{}:{}", c.k, c.r));
     Ok(())
+}
+
+// ----------------------------------------------------------------------
+// very long shards with a real oracle: working sets from 8 MiB to 768 MiB (quick) / 2 GiB (thorough),
+// log-uniform. The other big-memory parts (C05, C14, C17) compare the code with itself; thresholds and
+// blocked loops in shared helpers (xor, formal derivative) need the round-trip oracle at these sizes.
+
+#[derive(Clone, Debug, PartialEq, Eq, Hash, Serialize, Deserialize)]
+pub struct BigRound {
+    pub kind: Kind,
+    pub eng: Eng,
+    pub k: usize,
+    pub r: usize,
+    /// log2 of the decoder working set in bytes, times 4
+    pub bytes_q: u8,
+    pub jitter: usize,
+    pub recv: RecvSpec,
+    pub seed: u64,
+}
+
+fn big_strategy(t: Tier) -> BoxedStrategy<BigRound> {
+    let max_q = t.pick(4 * 29 + 2u8, 4 * 31u8);
+    (gen::kind_any(), any::<u8>(), 1usize..=5, 1usize..=5, prop_oneof![1 => (4 * 23u8)..=(4 * 26u8), 3 => (4 * 26u8)..=max_q], 0usize..2048, gen::recv_spec(), any::<u64>())
+        .prop_map(|(kind, eraw, k, r, bytes_q, jitter, recv, seed)| {
+            let fast: Vec<Eng> = [Eng::NoSimd, Eng::Ssse3, Eng::Avx2, Eng::Default].iter().copied().filter(|e| e.available()).collect();
+            let eng = if kind == Kind::Rs { Eng::Default } else { fast[(eraw as usize * fast.len()) >> 8] };
+            BigRound { kind, eng, k, r, bytes_q, jitter, recv, seed }
+        })
+        .boxed()
+}
+
+fn check_big(c: &BigRound, st: &mut Stats) -> CheckResult {
+    let positions = Cfg { k: c.k, r: c.r, b: 2 }.positions(c.kind);
+    let bytes = 2f64.powf(c.bytes_q as f64 / 4.0) as usize;
+    let b = ((bytes / positions) / 2 * 2 + c.jitter * 2).max(2);
+    // originals + recovery + encoder and decoder working spaces + restored copies
+    let need = (c.k + c.r) * b * 2 + positions * b * 2;
+    crate::runner::with_memory_budget(need, || {
+        let mut rng = gen::Xs::new(c.seed);
+        let data: Vec<Vec<u8>> = (0..c.k)
+            .map(|_| {
+                let mut v = vec![0u8; b];
+                rng.fill(&mut v);
+                v
+            })
+            .collect();
+        let rec = match encode_all(c.kind, c.eng, c.k, c.r, b, &data) {
+            Ok(v) => v,
+            Err(e) => fail!("encode of {}+{} shards of {b} bytes failed: {e:?}", c.k, c.r),
+        };
+        ensure!(rec.len() == c.r && rec.iter().all(|s| s.len() == b), "wrong number or size of recovery shards");
+        // maximum loss unless the spec says otherwise
+        let given = c.recv.arrival(c.k, c.r);
+        let restored = match decode_all(c.kind, c.eng, c.k, c.r, b, &given, &data, &rec) {
+            Ok(v) => v,
+            Err(e) => fail!("decode with {} >= k shards of {b} bytes failed: {e:?}", given.len()),
+        };
+        check_restored(c.k, b, &given, &data, &restored).map_err(|f| crate::runner::Fail { sig: None, msg: format!("{}+{} shards of {b} bytes ({} {}): {}", c.k, c.r, c.kind.name(), c.eng.name(), f.msg) })?;
+        st.classf("working_set_MiB_log2", c.bytes_q as i64 / 4 - 20);
+        st.classf("engine", c.eng.name());
+        if !restored.is_empty() {
+            st.nontrivial_case("big_roundtrip", c);
+        }
+        Ok(())
+    })
 }
